@@ -37,6 +37,33 @@ structure ArchiveGood (H : Str → Str) (src : List SrcEntry) (s : Store) : Prop
 theorem ArchiveGood.wf {src : List SrcEntry} {s : Store} (h : ArchiveGood H src s) : ArchWF s :=
   archWF_of h.st h.sorted
 
+/-- In an archive that is a tree, whatever holds a hunk file has its version directory. -/
+theorem bandDir_of_hunk {s : Store} (hst : StoreOK H s) {c n : Nat} {v : FileVal}
+    (h : s.get? (.hunk c n) = some v) : c ∈ bandIdsOf s := by
+  have h1 := hst.dirs _ _ h
+  simp only [Store.parentOk, Key.parent, beq_iff_eq] at h1
+  have h2 := hst.dirs _ _ h1
+  simp only [Store.parentOk, Key.parent, beq_iff_eq] at h2
+  have h3 := hst.dirs _ _ h2
+  simp only [Store.parentOk, Key.parent, beq_iff_eq] at h3
+  exact (mem_bandIdsOf hst).2 h3
+
+/-- No version of a good archive has lost its head. -/
+theorem ArchiveGood.headLost_false {src : List SrcEntry} {s : Store} (h : ArchiveGood H src s) (c : Nat) :
+    headLost s c = false := by
+  unfold headLost
+  cases hg : s.get? (.hunk c 0) with
+  | none => simp
+  | some v =>
+    have hr := (h.bands c (bandDir_of_hunk h.st hg)).1
+    have hp : bandPresent s c = true := by
+      unfold bandReadable at hr
+      unfold bandPresent
+      cases hh : s.get? (.bandHead c) with
+      | none => simp [hh] at hr
+      | some v => cases v <;> simp [hh, FileVal.isDir] at hr ⊢
+    simp [hp]
+
 /-! ### Bridging to the stitch refinement -/
 
 theorem _root_.Conserve.World.Clean.quiet {w : World} (h : w.Clean) : w.Quiet := ⟨h.2.1, h.2.2.1, h.2.2.2⟩
@@ -367,22 +394,23 @@ theorem backupPrelude_runs (hlen : ∀ d, subdirNameChars ≤ (H d).length) {src
     have hsilent : listErrors (withNewBand s) b = [] := by
       rw [listErrors_same hwf0.uniqueKeys hst1.uniqueKeys b hsame]
       apply C08.stitch_silent
-      intro c hc
-      have hcb : c ∈ bandIdsOf s := by
-        simp only [chain, List.mem_cons] at hc
-        rcases hc with rfl | hc
-        · exact hbmem
-        · split at hc
-          · cases hc
-          · have hp := chainBelow_present b c hc
-            simp only [bandPresent] at hp
-            cases hh : s.get? (.bandHead c) with
-            | none => simp [hh] at hp
-            | some v =>
-              have := hst.dirs _ _ hh
-              simp only [Store.parentOk, Key.parent, beq_iff_eq] at this
-              exact (mem_bandIdsOf hst).2 this
-      exact hg.bands c hcb
+      · intro c hc
+        have hcb : c ∈ bandIdsOf s := by
+          simp only [chain, List.mem_cons] at hc
+          rcases hc with rfl | hc
+          · exact hbmem
+          · split at hc
+            · cases hc
+            · have hp := chainBelow_present b c hc
+              simp only [bandPresent] at hp
+              cases hh : s.get? (.bandHead c) with
+              | none => simp [hh] at hp
+              | some v =>
+                have := hst.dirs _ _ hh
+                simp only [Store.parentOk, Key.parent, beq_iff_eq] at this
+                exact (mem_bandIdsOf hst).2 this
+        exact hg.bands c hcb
+      · exact fun c _ => hg.headLost_false c
     have hlist : listSpec (withNewBand s) b = listSpec s b :=
       listSpec_same hwf0.uniqueKeys hst1.uniqueKeys b hsame
     refine ⟨?_, ?_, hl⟩
